@@ -394,9 +394,12 @@ class Channel:
         import uuid as _uuid
         self.nopen = getattr(self, "nopen", 0) + 1
         ustr = [None, str(_uuid.uuid4()), None, "session-%d-of-%s" % (self.nopen, _uuid.uuid4().hex * 2), "u%d" % self.nopen][self.nopen % 5]
+        # the channel directory as callers name it: absolute, with a trailing slash, relative to the current directory
+        cdir = self.chdir(d)
+        cdir = [cdir, cdir + "/", os.path.relpath(cdir), cdir][self.nopen % 4]
         try:
             w = self.drf.DigitalRFWriter(
-                self.chdir(d), dt, p["sc"], p["fc"], start_rel + cc.B, p["n"], p["d"], uuid_str=ustr,
+                cdir, dt, p["sc"], p["fc"], start_rel + cc.B, p["n"], p["d"], uuid_str=ustr,
                 compression_level=cc.compression, checksum=cc.checksum, is_complex=bool(p["is_complex"]),
                 num_subchannels=p["nsub"], is_continuous=bool(p["continuous"]), marching_periods=False,
             )
@@ -430,6 +433,12 @@ class Channel:
         try:
             # the index arguments in the forms callers use: Python int, numpy scalars, contiguous and strided arrays, lists
             self.nform = getattr(self, "nform", 0) + 1
+            if self.cc.is_complex and self.nform % 3 == 2:
+                # complex samples handed over as interleaved real values: (N, 2*nsub), or flat for a single subchannel
+                rdt = arr.dtype["r"] if arr.dtype.names else np.dtype("f%d" % (arr.dtype.itemsize // 2))
+                arr = np.ascontiguousarray(arr).view(rdt)
+                if self.cc.nsub == 1 and self.nform % 2 == 0:
+                    arr = arr.reshape(-1)
             if len(runs) == 1 and api != "blocks":
                 ns = runs[0][0] - st
                 ret = self.w.rf_write(arr, [ns, np.uint64(ns), np.int64(ns), ns][self.nform % 4])
